@@ -14,11 +14,70 @@ use async_graphql::{
     resolver_utils::resolve_container,
 };
 
-#[derive(Clone, Debug)]
+/// Complexity rule of a field (a fixed menu, because the registry stores a
+/// plain `fn` pointer).
+#[derive(Clone, Copy, Debug, Default, PartialEq)]
+pub enum Rule {
+    #[default]
+    Default,
+    Const(usize),    // 0, 2, 5
+    ChildMul(usize), // 2, 3
+    ChildAdd(usize), // 3
+    ArgMul(Option<usize>), // argument "n": usize, optional default 3
+}
+
+#[derive(Clone, Debug, Default)]
 pub struct FieldDesc {
     pub name: String,
     pub ty: String,
     pub cc: CacheControl,
+    pub rule: Rule,
+    /// (name, type string) of arguments
+    pub args: Vec<(String, String)>,
+}
+
+/// Number of generated resolver invocations (read and reset by harnesses).
+pub static RESOLVER_CALLS: std::sync::atomic::AtomicU64 = std::sync::atomic::AtomicU64::new(0);
+
+type Cx = fn(
+    &async_graphql::VisitorContext<'_>,
+    &[Positioned<async_graphql::parser::types::VariableDefinition>],
+    &Field,
+    usize,
+) -> ServerResult<usize>;
+
+pub fn rule_fn(r: Rule) -> Option<Cx> {
+    match r {
+        Rule::Default => None,
+        Rule::Const(0) => Some(|_, _, _, _| Ok(0)),
+        Rule::Const(2) => Some(|_, _, _, _| Ok(2)),
+        Rule::Const(_) => Some(|_, _, _, _| Ok(5)),
+        Rule::ChildMul(2) => Some(|_, _, _, c| Ok(2 * c)),
+        Rule::ChildMul(_) => Some(|_, _, _, c| Ok(3 * c)),
+        Rule::ChildAdd(_) => Some(|_, _, _, c| Ok(3 + c)),
+        Rule::ArgMul(None) => Some(|ctx, vd, f, c| {
+            let n: usize = ctx.param_value(vd, f, "n", None)?;
+            Ok(n * c)
+        }),
+        Rule::ArgMul(Some(_)) => Some(|ctx, vd, f, c| {
+            let n: usize = ctx.param_value(vd, f, "n", Some(|| 3usize))?;
+            Ok(n * c)
+        }),
+    }
+}
+
+/// Canonical form of a rule (the constants actually registered).
+pub fn rule_canon(r: Rule) -> Rule {
+    match r {
+        Rule::Const(0) => Rule::Const(0),
+        Rule::Const(2) => Rule::Const(2),
+        Rule::Const(_) => Rule::Const(5),
+        Rule::ChildMul(2) => Rule::ChildMul(2),
+        Rule::ChildMul(_) => Rule::ChildMul(3),
+        Rule::ChildAdd(_) => Rule::ChildAdd(3),
+        Rule::ArgMul(Some(_)) => Rule::ArgMul(Some(3)),
+        x => x,
+    }
 }
 
 #[derive(Clone, Debug)]
@@ -86,6 +145,10 @@ fn meta_fields(fields: &[FieldDesc]) -> IndexMap<String, MetaField> {
     for f in fields {
         let mut mf = MetaField::new(f.name.clone(), f.ty.clone());
         mf.cache_control = f.cc;
+        mf.compute_complexity = rule_fn(f.rule);
+        for (an, aty) in &f.args {
+            mf.args.insert(an.clone(), async_graphql::registry::MetaInputValue::new(an.clone(), aty.clone()));
+        }
         m.insert(f.name.clone(), mf);
     }
     m
@@ -201,6 +264,7 @@ fn resolve_value_of<'a>(
 impl GenObj {
     async fn field(&self, ctx: &Context<'_>) -> ServerResult<Option<Value>> {
         run_probe(ctx);
+        RESOLVER_CALLS.fetch_add(1, std::sync::atomic::Ordering::SeqCst);
         let d = current();
         let name = ctx.item.node.name.node.as_str();
         if let Some(TypeDesc::Object { fields, .. }) = d.get(&self.ty)
